@@ -235,7 +235,7 @@ class C04Mon(Monitor):
     def on_sub(self, w, sub):
         m = w.m
         if sub.exc is not None:
-            if sub.kind in ("add", "cancel", "tick"):
+            if sub.kind in ("add", "cancel", "tick", "direct"):
                 raise Violation("C04.raises", "a valid operation raised | %s raised %s" % (sub.kind, repr(sub.exc)[:100]))
             return
         if sub.kind == "add":
